@@ -51,11 +51,14 @@ fn all_entry_points(data: Vec<u8>, keys: std::sync::Arc<Vec<SignedSecretKey>>) -
                 let ring = TheRing { secret_keys: keys.iter().collect(), key_passwords: vec![&e], message_password: vec![&pw], session_keys: vec![], decrypt_options: DecryptionOptions::new().enable_legacy().enable_gnupg_aead() };
                 if let Ok((mut d, _)) = m.decrypt_the_ring(ring, false) { let mut o = Vec::new(); let _ = d.read_to_end(&mut o); if let Ok(mut d2) = Message::from_bytes(&o[..]) { let mut o2 = Vec::new(); let _ = d2.read_to_end(&mut o2); }; }
             } else {
-                if m.is_compressed() { if let Ok(mut d) = m.decompress() { let mut o = Vec::new(); let _ = d.read_to_end(&mut o); } }
+                if m.is_compressed() { if let Ok(mut d) = m.decompress() { let mut o = Vec::new(); let failed = d.read_to_end(&mut o).is_err();
+                    if failed { if let Err(p) = guarded(|| { let mut b = [0u8; 16]; let _ = d.read(&mut b); }) { return format!("{p} (Message::read after a read_to_end of the decompressed message that returned Err)"); } } } }
                 else {
                     let mut o = Vec::new(); let read_failed = m.read_to_end(&mut o).is_err();
                     // an accessor called after a failed read: told apart from every other panic by the circumstance (the read
                     // returned Err just before) and by where the panic is raised, never by its wording
+                    // reading again after a failed read must report an error (fix 0d12430), never panic
+                    if read_failed { if let Err(p) = guarded(|| { let mut b = [0u8; 16]; let _ = m.read(&mut b); }) { return format!("{p} (Message::read after a read_to_end that returned Err)"); } }
                     let _ = take_panic_file();
                     let r = guarded(|| { for k in keys.iter().take(2) { let _ = m.verify(&SignedPublicKey::from(k.clone())); } });
                     if let Err(p) = r {
@@ -85,8 +88,8 @@ fn all_entry_points(data: Vec<u8>, keys: std::sync::Arc<Vec<SignedSecretKey>>) -
             if let Err(p) = guarded(|| { let _ = m.read_to_end(&mut o); }) {
                 let file = take_panic_file();
                 let f = file.rsplit("/src/").next().unwrap_or("").to_string();
-                if read_failed && f.starts_with("composed/message/") { return format!("PANIC-AFTER-READ-ERROR: Message::read_to_end after a read_to_end that returned Err panicked in src/{f}"); }
-                return p;
+                let _ = (read_failed, f);
+                return format!("{p} (Message::read_to_end after a read_to_end that returned Err)");
             }
         }
         format!("returned ({n_ok} accepted)")
@@ -163,6 +166,24 @@ fn main() {
     // a container to put behind the session-key packets
     let cont_v1 = new_header(18, &[&[1u8][..], &cx.rng.bytes(60)[..]].concat());
     let cont_v2 = new_header(18, &[&[2u8, 9, 2, 0][..], &cx.rng.bytes(32 + 60)[..]].concat());
+
+    // ---- 0. messages that end too early, of every container kind: the first read fails, and a caller that reads again
+    //         gets an error again (never a panic)
+    {
+        let lit_body = |n: usize| -> Vec<u8> { let mut b = vec![b'b', 0, 0, 0, 0, 0]; b.extend(std::iter::repeat(0x61).take(n)); b };
+        let mut short: Vec<(String, Vec<u8>)> = Vec::new();
+        // fixed length announced, fewer octets present
+        for (ann, have) in [(20usize, 3usize), (200, 100), (9000, 10), (9000, 8500)] { let mut p = new_header(11, &lit_body(ann - 6)); p.truncate(p.len() - (ann - 6 - have.min(ann - 6))); short.push((format!("literal-fixed-{ann}-{have}"), p)); }
+        // partial body: a 512-octet part announced, the stream ends inside it / right behind it (no final part)
+        for have in [100usize, 511, 512] { let mut p = vec![0xC0 | 11, 0xE9]; let mut b = lit_body(600); b.truncate(have); p.extend(b); short.push((format!("literal-partial-{have}"), p)); }
+        // legacy header, two-octet length
+        { let mut p = vec![0x80 | (11 << 2) | 1, 0x01, 0x00]; p.extend(lit_body(20)); short.push(("literal-legacy-short".into(), p)); }
+        // the same inside an uncompressed "compressed data" packet, and behind a one-pass signature packet
+        let inner: Vec<(String, Vec<u8>)> = short.clone();
+        for (n, p) in &inner { let mut c = vec![0u8]; c.extend_from_slice(p); short.push((format!("compressed-{n}"), new_header(8, &c))); }
+        for (n, p) in &inner { let ops = new_header(4, &[3u8, 0, 8, 27, 1, 2, 3, 4, 5, 6, 7, 8, 1]); short.push((format!("onepass-{n}"), [ops, p.clone()].concat())); }
+        for (n, p) in short { blob(&mut cx, p, &format!("ends-early-{}", n.split('-').take(2).collect::<Vec<_>>().join("-"))); }
+    }
 
     // ---- 1. attacker-chosen session-key plaintext behind valid public-key encryption
     for (ki, key) in keys.iter().enumerate() {
